@@ -469,6 +469,10 @@ Proof.
     apply (cr_proxy c _ i SK); [apply GV; cbn; auto | apply cr_refl].
   - (* OFlowProxy *) cbn [fst w_cs]. eapply cr_fresh; apply cr_refl.
   - (* OCopy *) cbn [fst w_cs]. eapply cr_fresh; apply cr_refl.
+  - (* OLink *)
+    destruct (link_with s i j fl ph tp) as [s1 [e|]]; cbn [fst w_cs]; [apply cr_refl|].
+    destruct tp; cbn [fst w_cs]; [|apply cr_refl].
+    unfold reset_cache. eapply creach_reset_list; eapply creach_reset_list; apply cr_refl.
   - (* OUnlink *)
     destruct (unlink s i) as [s1 [e|]]; cbn [fst w_cs]; [apply cr_refl|].
     unfold reset_cache. eapply creach_reset_list; eapply creach_reset_list; apply cr_refl.
@@ -754,7 +758,7 @@ Proof.
   match goal with |- context [fold_left ?f ?l ?a0] =>
     assert (G : forall l0 st kept, nob (fst (fold_left f l0 (st, kept))) = nob st) end.
   { induction l0 as [|[p n] t IH]; intros st kept; cbn [fold_left]; auto.
-    cbn [fst snd]. destruct (index_of p ps); [|apply IH].
+    cbn [fst snd]. destruct (if is_multi st n then None else index_of p ps); [|apply IH].
     cbn [new_imol]. rewrite IH. unfold nob; cbn. apply upd_length. }
   match goal with |- context [fold_left ?f ?l (?st, ?k)] =>
     specialize (G l st k); destruct (fold_left f l (st, k)) as [s4 vs] end.
@@ -879,7 +883,11 @@ Proof.
     destruct (copy_data s _) as [s1 d] eqn:E. apply copy_data_objs in E.
     destruct (copy_imol_with s1 _ _) as [s2 ir] eqn:E2. apply copy_imol_with_objs in E2.
     cbn. rewrite !app_length, E2, E, A. reflexivity.
-  - apply lift_aligned; [apply link_nob | exact A].
+  - (* OLink *)
+    pose proof (link_nob s i j fl ph tp) as U. destruct (link_with s i j fl ph tp) as [s1 [e|]]; cbn [fst] in U |- *.
+    + unfold aligned, nob in *; cbn [w_st w_cs]; lia.
+    + pose proof (ensure_views_nob s1 i) as U2.
+      destruct tp; unfold aligned, nob in *; cbn [fst w_st w_cs]; rewrite ?reset_cache_len; lia.
   - (* OUnlink *)
     pose proof (unlink_nob s i) as U. destruct (unlink s i) as [s1 [e|]]; cbn [fst] in U |- *;
       unfold aligned, nob in *; cbn [w_st w_cs]; rewrite ?reset_cache_len; lia.
@@ -1247,7 +1255,7 @@ Proof.
     assert (G : forall l0 st kept, SInv st -> (ir < length (imols st))%nat ->
                 SInv (fst (fold_left f l0 (st, kept))) /\ (ir < length (imols (fst (fold_left f l0 (st, kept)))))%nat) end.
   { induction l0 as [|[p n] t IH]; intros st kept HS HL; cbn [fold_left]; [split; assumption|].
-    cbn [fst snd]. destruct (index_of p ps) as [k|]; [|apply IH; assumption].
+    cbn [fst snd]. destruct (if is_multi st n then None else index_of p ps) as [k|]; [|apply IH; assumption].
     cbn [new_imol]. apply IH.
     - apply (reattach_step_sinv st n (mkimol false (nth k rs O) p [])); [reflexivity | exact HS].
     - cbn. rewrite upd_length || idtac. cbn. rewrite app_length; cbn; lia. }
@@ -1377,7 +1385,12 @@ Proof.
   - (* OProxy *) cbn [fst w_st]. apply st_proxy_sinv; [exact H | apply GV; cbn; auto].
   - cbn [fst w_st]. apply st_flow_proxy_sinv, H.
   - cbn [fst w_st]. apply st_copy_sinv, H.
-  - apply link_with_sinv; [exact H | apply GV; cbn; auto | apply GV; cbn; auto | exact AD].
+  - (* OLink *)
+    pose proof (link_with_sinv s i j fl ph tp H (GV i ltac:(cbn; auto)) (GV j ltac:(cbn; auto)) AD) as U.
+    pose proof (link_nob s i j fl ph tp) as N.
+    destruct (link_with s i j fl ph tp) as [s1 [e|]]; cbn [fst] in U, N |- *; [exact U|].
+    destruct tp; cbn [fst w_st]; [|exact U].
+    apply ensure_views_sinv; [exact U|]. unfold nob in N. rewrite N. apply GV; cbn; auto.
   - (* OUnlink *)
     pose proof (unlink_sinv s i H (GV i ltac:(cbn; auto))) as U.
     destruct (unlink s i) as [s1 [e|]]; exact U.
